@@ -178,6 +178,20 @@ pub fn run(tier: &str) -> Result<Report, String> {
                 }
             }
             fs.extend(crate::formulas::duplicate_templates(ctx.nprops(), 3, true, false).into_iter().step_by(if rich { 1 } else { 4 }));
+            // chains of two binary operators in both association orders (precedence / associativity
+            // is what decides where parentheses are redundant)
+            let all_ops = ["&", "|", "^", "=>", "<=>", "EU", "AU", "EW", "AW"];
+            let p2 = ctx.user.props[ctx.user.props.len() - 1].clone();
+            for o1 in all_ops {
+                for o2 in all_ops {
+                    fs.push(crate::formulas::f(&format!("a {o1} (({p2}) {o2} (~ a))"), &ctx.user));
+                    fs.push(crate::formulas::f(&format!("(a {o1} ({p2})) {o2} (~ a)"), &ctx.user));
+                    if rich {
+                        fs.push(crate::formulas::f(&format!("!{{x}}: (a {o1} ((EX {{x}}) {o2} (~ {{x}})))"), &ctx.user));
+                        fs.push(crate::formulas::f(&format!("EX (a {o1} ({p2})) {o2} AG a"), &ctx.user));
+                    }
+                }
+            }
         }
         let mut ge = Gen::new(Alphabet::extended(1, 2, 1, 1));
         fs.extend(ge.closed_up_to(3).into_iter().filter(|f| f.uses_wild_or_dom()));
@@ -216,7 +230,7 @@ pub fn run(tier: &str) -> Result<Report, String> {
     }
     rep.evaluations = total_rewrites;
     rep.distinct_nontrivial = distinct_rewrites;
-    rep.rule = format!("for every closed plain formula with <= {m} nodes, every template formula, the family Q1{{x}}: ((Q2{{y}}: A) op B), duplicate templates and every extended formula with <= 3 nodes, on {which:?}: all scope-respecting assignments of the names {POOL:?} to its binders (consistent renaming incl. permutations of the internal names x, xx, xxx), whitespace patterns (none where legal, double, tab, newline, NBSP, mixed; everywhere and at each single token boundary), 1-2 redundant parentheses around each sub-formula and around all, the minimal-parentheses rendering and the minimal rendering with one sub-formula keeping its parentheses, long spellings of each/all hybrid operators, constant spellings; the rewritten text must evaluate (model_check_formula / model_check_extended_formula_dirty) to the same set as the canonical text. distinct_nontrivial = number of rewritten texts that differ from the canonical text and from each other (per formula and network), counted with a hash set; evaluations additionally counts the canonical text");
+    rep.rule = format!("for every closed plain formula with <= {m} nodes, every template formula, the family Q1{{x}}: ((Q2{{y}}: A) op B), all chains of two binary operators in both association orders, duplicate templates and every extended formula with <= 3 nodes, on {which:?}: all scope-respecting assignments of the names {POOL:?} to its binders (consistent renaming incl. permutations of the internal names x, xx, xxx), whitespace patterns (none where legal, double, tab, newline, NBSP, mixed; everywhere and at each single token boundary), 1-2 redundant parentheses around each sub-formula and around all, the minimal-parentheses rendering and the minimal rendering with one sub-formula keeping its parentheses, long spellings of each/all hybrid operators, constant spellings; the rewritten text must evaluate (model_check_formula / model_check_extended_formula_dirty) to the same set as the canonical text. distinct_nontrivial = number of rewritten texts that differ from the canonical text and from each other (per formula and network), counted with a hash set; evaluations additionally counts the canonical text");
     rep.assumptions.push("the rewrite generator only produces meaning-preserving variants by construction (consistent renaming respecting scopes, whitespace only between tokens, balanced extra parentheses)".into());
     Ok(rep)
 }
